@@ -50,5 +50,5 @@ def generate(rng, tier):
 
 LEVEL_TEXT = ('Kernel-checked theorems about the model: rotation keeps the magnitude bit-exact and adds the rotation angle (total within 1e-10 + 2^-51, canonical); a full turn adds exactly four blades with the remainder untouched; '
               'reflection keeps the magnitude bit-exact, returns a canonical angle with at least twice the axis\'s blades, and does not depend on the axis length; scale_rotate multiplies by |f| and negates the angle first exactly when f <_F 0. '
-              'C12_reflect_law: the reflected total equals 2*theta(axis) + 8q - theta(base p) within 3e-10 + 7 ulp(4), i.e. the direction 2 alpha - t modulo a full turn. C12_rotate_direction / C12_reflect_direction (REAL pi): the rotated direction is dirR g + dirR r within 1e-10 + 2^-51 + 1e-16, and the reflected direction is 2 dirR(axis) - dir(p) + 4 pi within 3e-10 + 7*2^-52 + 3e-16. Double reflection as one statement is decided by predicate (S3).')
+              'C12_reflect_law: the reflected total equals 2*theta(axis) + 8q - theta(base p) within 3e-10 + 7 ulp(4), i.e. the direction 2 alpha - t modulo a full turn. C12_rotate_direction / C12_reflect_direction (REAL pi): the rotated direction is dirR g + dirR r within 1e-10 + 2^-51 + 1e-16, and the reflected direction is 2 dirR(axis) - dir(p) + 4 pi within 3e-10 + 7*2^-52 + 3e-16. C12_double_reflection: reflecting twice across the same axis returns the magnitude bit-exactly and the direction (cos and sin of it, REAL pi) within twice the reflection tolerance.')
 LEVEL_NOTE = ('Partial. Trusted: Coq kernel + vm_compute; 4 standard-library axioms; plus the primitive-integer axioms (PrimInt63.*, Uint63.*_spec) that the Interval tactic uses for the two bounds on the real pi in PiBounds.v (direction theorems only); hand-written model validated bit-for-bit each run. No libm involved in rotate/reflect/scale_rotate.')
